@@ -328,13 +328,31 @@ func jlStream(seed uint64, tier string, outDir string, props map[string]bool, fo
 			flush()
 		}
 
-		// malformed templates: exit non-zero, nothing on stdout
+		// logging options change neither the data nor the exit status
+		vflags := [][]string{{"-v", "none"}, {"-v", "0"}, {"-v", "5"}, {"-v", "bogus"}, {"--log-json"}, {"-v", "trace", "--debug"}, {"-v", "warn", "--color", "no"}}
+		vf := vflags[r.intn(len(vflags))]
+		if i%3 == 0 {
+			rd := runJl(bin, mkdir("d"), append([]string{"-t", inline}, vf...), stdin)
+			rep.OracleChecks["C19"]++
+			if rd.exit != rb.exit || !bytes.Equal(rd.stdout, rb.stdout) {
+				violate(fmt.Sprintf("jl: with %q the command exits %d and writes %q; without, %d and %q", vf, rd.exit, rd.stdout, rb.exit, rb.stdout), ctx)
+			}
+		}
+
+		// malformed templates: exit non-zero, nothing on stdout, whatever the logging options
 		if i%6 == 0 {
 			bad := []string{`{"a":`, `[1]`, `{"a":"string"}x`, `nope`, `{"a":"string",}`}[r.intn(5)]
 			rm := runJl(bin, mkdir("m"), []string{"-t", bad}, stdin)
 			rep.OracleChecks["C19"]++
 			if rm.exit == 0 || len(rm.stdout) != 0 {
 				violate(fmt.Sprintf("jl: malformed inline template %q: exit %d, stdout %q", bad, rm.exit, rm.stdout), ctx)
+			}
+			for _, fl := range vflags {
+				rv := runJl(bin, mkdir("mv"), append([]string{"-t", bad}, fl...), stdin)
+				rep.OracleChecks["C19"]++
+				if rv.exit == 0 || len(rv.stdout) != 0 {
+					violate(fmt.Sprintf("jl: malformed inline template %q with %q: exit %d, stdout %q", bad, fl, rv.exit, rv.stdout), ctx)
+				}
 			}
 			cases = append(cases, fmt.Sprintf("mkjc %s [] %s %s %s", T, gStr(bad), gList(glines), seen(rm)))
 			dy := mkdir("y")
